@@ -100,6 +100,7 @@ def gen_case(r, tier, force=None):
     vtok = []
     if r.chance(1, 6):
         vtok = [str(r.choice([0, r.range(1, 10 ** 6), 10 ** 6, r.range(1, 10 ** 9)])) for _ in range(nval)]
+    forced = sorted(set(r.below(3) for _ in range(r.below(3)))) if r.chance(1, 2) else []
     if "denoms" in force:
         denoms = force["denoms"]
     if "rf" in force:
@@ -127,7 +128,7 @@ def gen_case(r, tier, force=None):
 
     for _ in range(nops):
         x = r.below(100)
-        if x < 17 or not locks:
+        if x < 15 or not locks:
             d = r.below(nd)
             dur = r.choice([U, U, U, 2 * U, U + 1, U - 1, 3600 * SEC])
             o = r.below(3)
@@ -139,7 +140,7 @@ def gen_case(r, tier, force=None):
                 ops.append({"k": "lock", "o": o, "d": d, "amt": str(a), "dur": dur})
             last += 1
             locks[last] = {"owner": o, "d": d, "amt": a, "st": "free", "dur": dur}
-        elif x < 36:
+        elif x < 34:
             i = pick(lambda l: l["st"] == "free") if not r.chance(1, 8) else pick(lambda l: True)
             if i is None:
                 continue
@@ -150,7 +151,7 @@ def gen_case(r, tier, force=None):
             if o == l["owner"] and v < nval and l["st"] == "free" and denoms[l["d"]]["sf"] and l["dur"] >= U:
                 l["st"] = "del"
                 l["v"] = v
-        elif x < 46:
+        elif x < 44:
             i = pick(lambda l: l["st"] == "del") if not r.chance(1, 8) else pick(lambda l: True)
             if i is None:
                 continue
@@ -159,7 +160,7 @@ def gen_case(r, tier, force=None):
             ops.append({"k": "sfundel", "o": o, "id": i})
             if o == l["owner"] and l["st"] == "del":
                 l["st"] = "undel"
-        elif x < 52:
+        elif x < 50:
             i = pick(lambda l: l["st"] == "undel") if not r.chance(1, 5) else pick(lambda l: True)
             if i is None:
                 continue
@@ -168,7 +169,7 @@ def gen_case(r, tier, force=None):
             ops.append({"k": "sfunbond", "o": o, "id": i})
             if o == l["owner"] and l["st"] == "undel":
                 l["st"] = "unlocking"
-        elif x < 60:
+        elif x < 58:
             i = pick(lambda l: l["st"] == "del") if not r.chance(1, 8) else pick(lambda l: True)
             if i is None:
                 continue
@@ -183,7 +184,7 @@ def gen_case(r, tier, force=None):
                     l["amt"] = a - amt
                     last += 1
                     locks[last] = {"owner": l["owner"], "d": l["d"], "amt": amt, "st": "unlocking", "dur": l["dur"]}
-        elif x < 70:
+        elif x < 67:
             i = pick(lambda l: l["st"] in ("del", "del", "undel", "free") and denoms[l["d"]]["kind"] != "cl")
             if i is None:
                 continue
@@ -198,9 +199,36 @@ def gen_case(r, tier, force=None):
             if i is None:
                 continue
             l = locks[i]
-            ops.append({"k": "beginunlock", "o": l["owner"], "id": i})
-            if l["st"] == "free":
-                l["st"] = "unlocking"
+            y = r.below(10)
+            if y < 4:
+                ops.append({"k": "beginunlock", "o": l["owner"], "id": i})
+                if l["st"] == "free":
+                    l["st"] = "unlocking"
+            elif y < 6:
+                a = l["amt"]
+                amt = r.choice([a, max(1, a // 2), 1, max(1, a - 1), a + 1])
+                ops.append({"k": "beginunlockpartial", "o": l["owner"], "id": i, "amt": str(amt)})
+                if l["st"] == "free" and amt <= a:
+                    if amt == a:
+                        l["st"] = "unlocking"
+                    else:
+                        l["amt"] = a - amt
+                        last += 1
+                        locks[last] = {"owner": l["owner"], "d": l["d"], "amt": amt, "st": "unlocking", "dur": l["dur"]}
+            elif y < 8:
+                # every bonded lock of the owner starts unlocking - unless one of them is superfluid staked
+                o = l["owner"] if not r.chance(1, 6) else r.below(3)
+                ops.append({"k": "beginunlockall", "o": o})
+                mine = [q for q in locks.values() if q["owner"] == o]
+                if not any(q["st"] in ("del", "undel") for q in mine):
+                    for q in mine:
+                        if q["st"] == "free":
+                            q["st"] = "unlocking"
+            else:
+                o = l["owner"] if not r.chance(1, 6) else r.below(3)
+                ops.append({"k": "forceunlock", "o": o, "id": i})
+                if o == l["owner"] and o in forced and l["st"] in ("free", "unlocking"):
+                    l["st"] = "gone"
         elif x < 79:
             i = pick(lambda l: l["st"] in ("unlocking", "undel")) if r.chance(2, 3) else pick(lambda l: True)
             if i is None:
@@ -243,7 +271,7 @@ def gen_case(r, tier, force=None):
             else:
                 ops.append({"k": "swap", "d": d, "dir": r.below(2), "amt": str(r.range(1, 10 ** 17))})
             swapped = True
-    return {"nval": nval, "denoms": denoms, "rf": rf, "unb": unb, "vtok": vtok, "ops": ops}
+    return {"nval": nval, "denoms": denoms, "rf": rf, "unb": unb, "vtok": vtok, "force": forced, "ops": ops}
 
 
 # deterministic witness of finding C11-F1 (three dust locks, refresh, two undelegations)
@@ -257,7 +285,7 @@ def witness_f1():
     ops.append({"k": "epoch", "mode": "direct", "mults": [str(P18)]})
     ops.append({"k": "sfundel", "o": 0, "id": 1})
     ops.append({"k": "sfundel", "o": 1, "id": 2})
-    return {"nval": 2, "denoms": [{"kind": "gamm", "mult": "20", "sf": True}], "rf": "0.5", "unb": 0, "vtok": [], "ops": ops}
+    return {"nval": 2, "denoms": [{"kind": "gamm", "mult": "20", "sf": True}], "rf": "0.5", "unb": 0, "vtok": [], "force": [], "ops": ops}
 
 
 # ---------------------------------------------------------------------------------------------
@@ -339,6 +367,12 @@ def coq_op(op, prev, c, order):
         return "OUndelegateAndUnbond %s %s %s" % (z(op["o"]), z(op["id"]), z(int(op["amt"])))
     if k == "beginunlock":
         return "OBeginUnlock %s %s" % (z(op["o"]), z(op["id"]))
+    if k == "beginunlockpartial":
+        return "OBeginUnlockPartial %s %s %s" % (z(op["o"]), z(op["id"]), z(int(op["amt"])))
+    if k == "beginunlockall":
+        return "OBeginUnlockAll %s" % z(op["o"])
+    if k == "forceunlock":
+        return "OForceUnlock %s %s" % (z(op["o"]), z(op["id"]))
     if k == "withdraw":
         return "OWithdraw %s" % z(op["id"])
     if k == "adv":
@@ -400,7 +434,7 @@ def coq_case(c, o):
     for i in keep:
         exp += model_flat(rows[i], nd, nv)
     sf = "[" + "; ".join(zlit(d) for d, dn in enumerate(c["denoms"]) if dn["sf"]) + "]"
-    cfg = "(mkCfg %s %s %s)" % (zlit(U), zlit(dec_raw(c["rf"])), sf)
+    cfg = "(mkCfg %s %s %s [%s])" % (zlit(U), zlit(dec_raw(c["rf"])), sf, "; ".join(zlit(x) for x in c.get("force", [])))
     vals = "[" + "; ".join("(%s, mkVal %s %s)" % (zlit(v), zlit(t), zlit(s)) for v, (t, s) in enumerate(r0["vals"])) + "]"
     mults = "[" + "; ".join("(%s, %s)" % (zlit(d), zlit(m)) for d, m in enumerate(r0["mult"])) + "]"
     dn = "[" + "; ".join(zlit(d) for d in range(nd)) + "]"
@@ -507,9 +541,23 @@ def oracle(c, o):
                 bad("marker_undelegating", i, "after undelegate-and-unbond lock %d has synthetic locks %s" % (r["newid"], ss))
             if r["newid"] not in locks or locks[r["newid"]][5] == 0:
                 bad("marker_undelegating", i, "after undelegate-and-unbond lock %d is not unlocking" % r["newid"])
-        # --- a lock cannot start unlocking while superfluid-delegated (or while it carries any marker)
-        if k == "beginunlock" and (op["id"] in pconn or op["id"] in psynths) and r["code"] == 0:
-            bad("unlock_while_delegated", i, "BeginUnlocking of lock %d succeeded although it is superfluid staked" % op["id"])
+        # --- a lock cannot start unlocking while superfluid-delegated (or while it carries any marker), whatever the entry point
+        if k in ("beginunlock", "beginunlockpartial", "forceunlock") and (op["id"] in pconn or op["id"] in psynths) and r["code"] == 0:
+            bad("unlock_while_delegated", i, "%s of lock %d succeeded although it is superfluid staked" % (k, op["id"]))
+        if k == "beginunlockall" and r["code"] == 0:
+            for lid, l in plocks.items():
+                if l[1] == op["o"] and l[5] == 0 and (lid in pconn or lid in psynths):
+                    bad("unlock_while_delegated", i, "BeginUnlockingAll succeeded although lock %d of the owner is superfluid staked" % lid)
+        for lid in pconn:
+            # whatever the operation: a lock that was delegated before it is afterwards either still delegated and bonded, or was
+            # undelegated by a superfluid message; it never starts unlocking, shrinks or disappears while connected
+            if lid in plocks and plocks[lid][5] == 0:
+                now_l = locks.get(lid)
+                undelegating_op = k in ("sfundel", "sfundelunbond") and op["id"] == lid
+                if now_l is None:
+                    bad("unlock_while_delegated", i, "delegated lock %d disappeared" % lid)
+                elif not undelegating_op and (now_l[5] != 0 or now_l[3] < plocks[lid][3]):
+                    bad("unlock_while_delegated", i, "delegated lock %d: end %d -> %d, amount %d -> %d" % (lid, plocks[lid][5], now_l[5], plocks[lid][3], now_l[3]))
         # --- stake tracks locks
         if r["code"] == 0 and k == "epoch":
             for key, a in r["acc"].items():
